@@ -34,6 +34,8 @@ const KEY_LENIENT_ADJACENT: &str = "C16:lenient-touching-clauses-differ-from-str
 const KEY_LENIENT_NOT_FIELD: &str = "C16:lenient-not-keyword-vs-field-name";
 const KEY_LENIENT_RANGE_ESCAPE: &str = "C16:lenient-range-bound-escape-differs";
 const KEY_BOOST_SKIP: &str = "C16:rewrite-skips-boosted-group";
+const KEY_RANGE_SEEK_OVERFLOW: &str = "C16:search-range-docset-seek-danger-overflow";
+const KEY_LENIENT_NEG_SUFFIX: &str = "C16:lenient-negative-number-with-suffix";
 const KEY_SET_LOOP: &str = "C16:lenient-set-unicode-space-loop";
 
 // ------------------------------------------------------------------------------------------
@@ -523,4 +525,5 @@ fn bits(set: &BTreeSet<usize>, n: usize) -> String {
     (0..n).map(|i| if set.contains(&i) { '1' } else { '0' }).collect()
 }
 
+include!("c16_attr.rs");
 include!("c16_parts.rs");
